@@ -146,3 +146,14 @@ MUTANTS += [
     M("c10-del-default-count", "C10", "_handle_del ignores the count", (P, "        self._local_objects.decref(get_id_pack(obj), count)", "        self._local_objects.decref(get_id_pack(obj))")),
     M("c10-box-no-add-in-tuple", "C10", "objects inside LABEL_TUPLE of length 2 are boxed without being recorded", (P, "            return consts.LABEL_TUPLE, tuple(self._box(item) for item in obj)", "            return consts.LABEL_TUPLE, tuple(self._box(item) if len(obj) != 2 or i == 0 else (consts.LABEL_REMOTE_REF, get_id_pack(item)) for i, item in enumerate(obj))")),
 ]
+
+MUTANTS += [
+    # ---- C12
+    M("c12-while-if", "C12", "_send: while -> if", (P, "        while self._send_queue:\n            if not self._sendlock.acquire(False):", "        if self._send_queue:\n            if not self._sendlock.acquire(False):")),
+    M("c12-no-recheck", "C12", "_send: re-check of the queue under the lock dropped", (P, "                if not self._send_queue:\n                    # Must `continue` to ensure that `send_queue` is checked\n                    # after releasing the lock! (in case another producer is\n                    # scheduled before `release`)\n                    continue\n", "")),
+    M("c12-continue-return", "C12", "_send: continue -> return", (P, "                    # scheduled before `release`)\n                    continue", "                    # scheduled before `release`)\n                    return")),
+    M("c12-blocking-acquire", "C12", "_send: try-lock -> blocking acquire", (P, "            if not self._sendlock.acquire(False):", "            if not self._sendlock.acquire():")),
+    M("c12-pop-last", "C12", "_send: pop(0) -> pop()", (P, "                data = self._send_queue.pop(0)", "                data = self._send_queue.pop()")),
+    M("c12-send-outside-lock", "C12", "_send: channel.send after releasing the lock", (P, "                data = self._send_queue.pop(0)\n                self._channel.send(data)\n            finally:\n                self._sendlock.release()", "                data = self._send_queue.pop(0)\n            finally:\n                self._sendlock.release()\n            self._channel.send(data)")),
+    M("c12-direct-send", "C12", "_send: own message sent directly when the lock is free, queue bypassed", (P, "        self._send_queue.append(data)\n        # It is crucial", "        if self._sendlock.acquire(False):\n            try:\n                self._channel.send(data)\n            finally:\n                self._sendlock.release()\n            return\n        self._send_queue.append(data)\n        # It is crucial")),
+]
